@@ -91,6 +91,16 @@ def _run_sym(unit, out, obligation_timeout_ms):
     models = {}
     # postconditions on every normal exit
     for xi, (s, v) in enumerate(rets):
+      for lname, lfn in case.lemma_instances.items():
+        outs = []
+        ectx = Ctx(None, None, None, lambda s2, e: outs.append((s2, None)))
+        I.call_value(lfn, [v], {}, s, ectx, lambda s2, r2: outs.append((s2, r2)))
+        if len(outs) != 1 or outs[0][1] is None:
+          raise Unsupported("lemma instance %s did not evaluate to a single formula" % lname)
+        s = outs[0][0]
+        fm = outs[0][1]
+        s.add(fm if hasattr(fm, "sort") else z3.BoolVal(bool(fm)))
+        res.setdefault("lemmas_used", []).append(lname)
       for cname, cfn in case.ensures.items():
         outs = []
         ectx = Ctx(None, None, None, lambda s2, e: outs.append((s2, ("exc", e))))
